@@ -148,6 +148,8 @@ def run(chk):
     chk.rule("evolve-exact-siblings", "Mps / MpDm.evolve_exact: same propagator arguments, phase on the returned object, offset cancels in the total exponent", 8)
     chk.rule("exact-propagator", "exact_propagator: scalar shift applied once as exp(shift*x); matrix exponential by eigendecomposition is V diag(exp(x w)) V^T; GS block is exp(x omega n)", 4)
     chk.rule("thermal-siblings", "ThermalProp.evolve_exact and evolve_prop use the same shifted exponent", 3)
+    from . import tree_rules as TR
+    TR.time_decoding(chk, src)
     chk.rule("thermal-hamiltonian", "both thermal propagation paths and the energy bookkeeping use the Hamiltonian the job was given", 3)
     thermal_hamiltonian_rule(chk, src)
     chk.rule("solver-sibling", "Krylov and ODE branch integrate the same exponent in imaginary time", 6)
